@@ -196,7 +196,7 @@ theorem handleTargetBridge_acked (w : World) (req : Req) (late : Late)
 theorem handleSourceBridge_acked (late : Late) : (handleSourceBridge late).ack = .ok := by
   cases late <;> rfl
 
-theorem handleExistingBridge_acked (w : World) (id : ConnIdent) (req : Req) : (handleExistingBridge w id req).ack = .ok := rfl
+theorem handleExistingBridge_acked (w : World) (id : ConnIdent) (req : Req) (sv : Bool) : (handleExistingBridge w id req sv).ack = .ok := rfl
 
 theorem processCrossNodeForward_acked (w : World) (node : String)
     (h : (processCrossNodeForward w node).attach ≠ .none) : (processCrossNodeForward w node).ack = .ok := by
@@ -207,7 +207,7 @@ theorem processCrossNodeForward_acked (w : World) (node : String)
 
 theorem dyn_bridge_cases (w : World) (id : ConnIdent) (req : Req) (m : String) (sv : Bool) (late : Late) :
     openTunnelDyn w id req (.bridge m sv) late = refuse ∨
-    openTunnelDyn w id req (.bridge m sv) late = handleExistingBridge w id req := by
+    openTunnelDyn w id req (.bridge m sv) late = handleExistingBridge w id req sv := by
   unfold openTunnelDyn
   by_cases hw : req.wellFormed = true
   · cases hf : findControlConnection id with
